@@ -121,7 +121,10 @@ def run(module, consts=None, invariants=(), spec='Spec', properties=(), constrai
     tagset = tuple('"%s ' % t for t in tags)
     err_block = None
     tail = []
+    logf = open(os.environ['VERIF_TLC_LOG'], 'a') if os.environ.get('VERIF_TLC_LOG') else None
     for line in proc.stdout:
+        if logf and not line.startswith(tagset):
+            logf.write(line)
         if line.startswith(tagset):
             try:
                 s = json.loads(line)
